@@ -11,6 +11,6 @@ trap 'git -C /repo worktree remove --force "$WT" >/dev/null 2>&1; rm -rf /tmp/mu
 cd /verif
 mkdir -p /tmp/mut_ev_$$
 for c in "$@"; do
-  PYTHONPATH="$WT" VERIF_EVIDENCE_DIR=/tmp/mut_ev_$$ ./run_check.sh $c ${TIER:-quick} > /tmp/mut_ev_$$/$c.log 2>&1; rc=$?
+  PYTHONPATH="$WT" VERIF_STOP_ON_FAIL=1 VERIF_EVIDENCE_DIR=/tmp/mut_ev_$$ ./run_check.sh $c ${TIER:-quick} > /tmp/mut_ev_$$/$c.log 2>&1; rc=$?
   echo "$c rc=$rc violations=$(grep -c '^VIOLATION' /tmp/mut_ev_$$/$c.log) $(grep -A1 '^VIOLATION' /tmp/mut_ev_$$/$c.log | grep signature | head -3 | tr '\n' ' ' | cut -c1-260)"
 done
